@@ -244,7 +244,21 @@ func emitConst(b *strings.Builder, c constSpec) {
 }
 
 func emitSpecial(b *strings.Builder, sp specialSpec) {
+	if h, ok := funcSpecials[sp.kind]; ok { // function- and type-level facts, see special_funcs.go
+		h(b, sp)
+		return
+	}
 	p := loadPkg(sp.dir)
+	if sp.kind == "returnText" { // the (untruncated) source text of the only statement `return <expr>` of a function
+		if fd, ok := p.funcs[sp.name]; ok && fd.Body != nil && len(fd.Body.List) == 1 {
+			if rs, ok := fd.Body.List[0].(*ast.ReturnStmt); ok && len(rs.Results) == 1 {
+				fmt.Fprintf(b, "/-- `%s` `%s` is `return <this expression>` (source text) -/\ndef %s : String := %s\n\n", sp.dir, sp.name, sp.lean, leanStr(exprStr(p.fset, rs.Results[0])))
+				return
+			}
+		}
+		fmt.Fprintf(b, "/-- `%s.%s` is not a single `return <expr>`. -/\ntheorem translator_unsupported_%s : False := by trivial\n\n", sp.dir, sp.name, sp.lean)
+		return
+	}
 	e, ok := p.vals[sp.name]
 	fail := func() {
 		fmt.Fprintf(b, "/-- `%s.%s` (%s) could not be extracted. -/\ntheorem translator_unsupported_%s : False := by trivial\n\n", sp.dir, sp.name, sp.kind, sp.lean)
@@ -254,6 +268,8 @@ func emitSpecial(b *strings.Builder, sp specialSpec) {
 		return
 	}
 	switch sp.kind {
+	case "exprText": // the initialiser expression of a package-level var/const, as printed source text
+		fmt.Fprintf(b, "/-- initialiser of `%s.%s` (source text) -/\ndef %s : String := %s\n\n", sp.dir, sp.name, sp.lean, leanStr(exprStr(p.fset, e)))
 	case "makeLen":
 		if call, ok := e.(*ast.CallExpr); ok && len(call.Args) == 2 {
 			if v := p.eval(call.Args[1], 0); v.ok && !v.isStr {
